@@ -31,6 +31,28 @@ CLAIMED = {
             "Host registration (ResolveHost/real DNS) is installed by hand in the driver; notification goroutines are awaited (quiescence, as the quantifier says); the proxy's address index "
             "(Proxy.backends) is exercised by the whole-proxy engine, not by this component.",
             "Coq proof (invariant: rotation is a duplicate-free permutation of the resolved set) + exhaustive differential run"),
+    "C14": ("Theorems for every well-formed abstract value of the property's grammar, lists of any length: C14_sipuri, C14_addrspec, C14_nameaddr, C14_route, C14_recordroute, "
+            "C14_fromto, C14_via, C14_cseq (decode of the reference text yields exactly the denoted components and accessors; encode gives the text back byte for byte; "
+            "encode-decode-encode is stable), C14_judge_exact, C14_*_legacy_refuted (the pre-fix decoders/encoders violate it), C14_ipv6_refuted and C14_user_semicolon_refuted "
+            "(the two tracked known findings, outside the grammar). Correspondence: grammar-driven values -> reference text (printed by the Coq side) -> real Parse*/String()/accessors "
+            "vs. model, judged against the expected observation.",
+            "The Via default-port rendering question is settled by the fix b230f5d (sent-by kept as received). IPv6 references and ';'/'?' in the user part are reported as KNOWN-FINDING.",
+            "Coq proof (induction over parameter/element lists, split/index lemmas on byte strings) + grammar-driven differential run"),
+    "C16": ("Theorems for ALL byte strings: C16_symmetric (direction independence incl. equal URIs/tags), C16_same_id, C16_callid_discriminates (unconditional), C16_discriminates "
+            "(one tag or URI changed, under the boolean separator hypothesis sep_ok), C16_sep_ok_realistic + C16_half_ok_distinct_tags (sep_ok holds for distinct '-'-free tags, any URIs), "
+            "C16_K3_refuted (tracked finding outside sep_ok), C16_judged (the group judge accepts the model on every group), C16_no_tag_from/to, C16_get_dialog_inv, "
+            "C16_message_symmetric, C16_half_of_rendering (decorations do not matter, with C14_fromto), C16_legacy_refuted. Correspondence: alphabet groups with all one-change neighbours in "
+            "8 renderings + random realistic identifiers, judged pairwise on the identifiers the real GetDialog returns.",
+            "Discrimination for tag/URI changes is claimed under sep_ok only; the K3 witness is replayed on every run and reported as KNOWN-FINDING.",
+            "Coq proof (trichotomy of the byte order, cancellation and prefix-comparability arguments) + group-wise differential run"),
+    "C20": ("Theorems for every fault script and every send sequence (no length bound): C20_judged_client/backend (trace judge), C20_obs_judged_client/backend + C20_*_obs_printed "
+            "(the count-based judge that is applied to the real code accepts exactly what the extracted runner prints), C20_trace_judge_implies_obs, C20_success_means_written, "
+            "C20_error_means_unwritten, C20_no_dup(_backend), C20_failover, C20_later_direct, C20_refused(_backend). Correspondence: the exhaustive fault table (cached connection x "
+            "reconnectable path x per-send destination behaviour) for 1-2 (thorough 3) sends against the real FailOverClientTransport/TCPClientTransport/TCPBackend with scripted "
+            "net.Conn doubles and real loopback listeners.",
+            "PARTIAL: what the peer actually received after a reset, kernel buffering (a write to a connection the peer already reset can still return success) and blocking dial/write "
+            "durations are runtime behaviour the model cannot exhibit; the accept-then-reset cell is judged on returns/no panic/attempt bounds only.",
+            "Coq proof (case analysis of the two-attempt loops over scripted worlds, invariants along send sequences) + exhaustive fault-table differential run"),
 }
 
 
